@@ -107,6 +107,8 @@ func (vfs *BasePathFS) ToBasePath(path string) string {
 	}
 
 	if vfs.IsAbs(path) {
+		// The path is cleaned first : ".." elements can't go above the (virtual) root.
+		path = vfs.Clean(path)
 		vl := avfs.VolumeNameLen(vfs, path)
 
 		return vfs.basePath + path[vl:]
